@@ -341,6 +341,44 @@ func (c *simClient) onlyOldKeys(s *world.Server, now time.Time) gmsl.ServerKeys 
 	return sk
 }
 
+// bothMaps builds the server's genuine key response as of now, except that
+// every retired key is listed under verify_keys as well (and signs the
+// response) besides its entry under old_verify_keys.
+func (c *simClient) bothMaps(s *world.Server, now time.Time) (gmsl.ServerKeys, bool) {
+	f := gmsl.ServerKeyFields{ServerName: s.Name, VerifyKeys: map[gmsl.KeyID]gmsl.VerifyKey{}, OldVerifyKeys: map[gmsl.KeyID]gmsl.OldVerifyKey{},
+		ValidUntilTS: spec.AsTimestamp(now.Add(s.ValidFor))}
+	retired := false
+	for _, k := range s.Keys {
+		if k.From.After(now) {
+			continue
+		}
+		f.VerifyKeys[k.ID] = gmsl.VerifyKey{Key: spec.Base64Bytes(k.Pub)}
+		if !k.Current() && !k.ExpiredAt.After(now) {
+			f.OldVerifyKeys[k.ID] = gmsl.OldVerifyKey{VerifyKey: gmsl.VerifyKey{Key: spec.Base64Bytes(k.Pub)}, ExpiredTS: spec.AsTimestamp(k.ExpiredAt)}
+			retired = true
+		}
+	}
+	if !retired || s.OmitValidUntil {
+		return gmsl.ServerKeys{}, false
+	}
+	raw, err := json.Marshal(f)
+	if err != nil {
+		return gmsl.ServerKeys{}, false
+	}
+	for _, k := range s.Keys {
+		if _, ok := f.VerifyKeys[k.ID]; ok {
+			if raw, err = gmsl.SignJSON(string(s.Name), k.ID, k.Priv, raw); err != nil {
+				return gmsl.ServerKeys{}, false
+			}
+		}
+	}
+	var sk gmsl.ServerKeys
+	if json.Unmarshal(raw, &sk) != nil {
+		return gmsl.ServerKeys{}, false
+	}
+	return sk, true
+}
+
 // respond produces what server `name` (or somebody answering in its place)
 // returns to a direct key request, with a tape-chosen fault.
 func (c *simClient) respond(name spec.ServerName) (*respRec, error) {
@@ -352,6 +390,16 @@ func (c *simClient) respond(name spec.ServerName) (*respRec, error) {
 		return nil, errors.New("simnet: no such host")
 	}
 	if !t.Chance(c.faultRate) {
+		if c.faultRate > 0 && t.Chance(80) {
+			if k, ok := c.bothMaps(s, now); ok {
+				// Not a fault: a server that still lists a retired key among its
+				// verify keys (and signs with it) while also naming it, with its
+				// expiry, under old_verify_keys. A key with an expired_ts is an
+				// expired key, wherever else it is listed.
+				c.w.r.Probe("response_lists_retired_key_in_both_maps")
+				return &respRec{kind: "retired_key_in_both_maps", good: true, server: name, keys: k}, nil
+			}
+		}
 		return &respRec{good: true, server: name, keys: s.KeyResponse(now)}, nil
 	}
 	switch t.Intn(7) {
